@@ -200,7 +200,21 @@ impl Loader {
             };
 
             match stmt {
-                Statement::Include(in_path) | Statement::Subninja(in_path) => {
+                Statement::Include(in_path) => {
+                    let id = self.evaluate_path(in_path, &[&parser.vars]);
+                    let (path, bytes) = self.read_file_by_id(id)?;
+                    // An included file shares the scope of the file including it, so
+                    // the bindings it makes refer to its text for as long as the
+                    // including parser lives: keep that text alive for good.
+                    let bytes: &'static [u8] = Box::leak(bytes.into_boxed_slice());
+                    let mut sub_parser = parse::Parser::new(bytes);
+
+                    sub_parser.inherit(&parser);
+                    self.parse_with_parser(&mut sub_parser, path, envs)?;
+                    parser.adopt(sub_parser);
+                }
+
+                Statement::Subninja(in_path) => {
                     let id = self.evaluate_path(in_path, &[&parser.vars]);
                     let (path, bytes) = self.read_file_by_id(id)?;
                     let bytes = std::rc::Rc::new(bytes);
